@@ -2726,6 +2726,9 @@ func (s *swamp) CloneAndDeleteMatchingTreasures(beaconType BeaconType, order Bea
 	}
 
 	shiftedTreasures, capReached := bcn.ShiftMatching(int(howMany), predicate, capPredicate, int(capMax))
+	if verifhook.Enabled {
+		verifhook.Point("shift.selected", len(shiftedTreasures))
+	}
 
 	// Drop shifted treasures from every sibling index — same as
 	// CloneAndDeleteExpiredTreasures. Permanent delete (shadowDelete=false).
